@@ -5,7 +5,13 @@ callLater / cancel / reset / delay (also from inside running calls, also on
 calls that already ran or were cancelled) and advance(0 | k/8 | exactly to the
 earliest pending call | far) or pump([...]).  Calls run *inside* advance, with
 the clock already at the new time; calls created inside an advance whose time
-is reached by it must run in it.
+is reached by it must run in it.  With a per-run probability a call FAILS (ends
+by raising, after its in-call operations): Clock has no error handler, the
+exception leaves advance()/pump() and cuts that advance short.  No verdict is
+given on the exception reaching the caller nor on the calls that advance had
+reached and not yet run (the statement is silent); but the failing call has
+run, the others are still pending and listed, and the Clock must stay usable:
+the next advance that completes has to run everything it reaches.
 
 Oracle: models.timers.TimerModel (mode "clock"), shared with C08, consulted on
 every call the Clock runs, at the end of every advance and after every
@@ -14,7 +20,7 @@ operation (getDelayedCalls, getTime, seconds).
 from twisted.internet import task
 
 from detsim.sim import Violation, StepLimit
-from props._timers import TimerScenario, EIGHTH, freeze_heap
+from props._timers import TimerScenario, ScriptedFailure, EIGHTH, freeze_heap
 
 ID = "C09"
 ENGINE = "clock"
@@ -29,11 +35,14 @@ COMPONENTS = {"real": ["twisted.internet.task.Clock.callLater/advance/pump/getDe
                        "twisted.internet.base.DelayedCall.cancel/reset/delay/getTime/active"],
               "stub": ["nothing below Clock exists; the scenario is Clock's caller (tape-chosen operations)"]}
 RULE = ("run = up to 100 tape-chosen operations over up to 40 calls (callLater with dyadic delay >= 0 / cancel / reset / delay(+-) on pending or dead calls, "
-        "from the top level or from inside a running call / advance by 0, k/8, exactly to the earliest pending call, or far / pump of 2-3 amounts), then a drain; "
+        "from the top level or from inside a running call / advance by 0, k/8, exactly to the earliest pending call, or far / pump of 2-3 amounts), "
+        "in 2/3 of runs each call ends by raising with probability 0.1 or 0.3 (the exception leaves advance(); the Clock is used on), then a drain (repeated while a failing call cuts it short); "
         "non-trivial = at least 3 calls ran AND a pending call was cancelled AND one was rescheduled AND two never-rescheduled calls with equal time ran")
 ASSUMPTIONS = ["delays passed to callLater and reset are >= 0, advance amounts are >= 0; all times are multiples of 1/8 s (exact in binary floating point)",
                "'nondecreasing scheduled time' is checked within one advance and not for a call that a negative delay() moved, during that advance, "
-               "to before a call that had already run (no implementation could satisfy that); 'no pending call is scheduled earlier when a call runs' is always checked"]
+               "to before a call that had already run (no implementation could satisfy that); 'no pending call is scheduled earlier when a call runs' is always checked",
+               "an advance that a failing call's exception cut short is not 'the first advance that reaches' the time of the calls it left pending (no verdict for that advance); "
+               "the next advance that returns normally is - also advance(0)"]
 
 
 class Scenario(TimerScenario):
@@ -44,6 +53,7 @@ class Scenario(TimerScenario):
         self.c = task.Clock()
         self.max_calls = 40
         self.ties = 0
+        self.leftover = []   # calls that were due when a failing call cut an advance short (evidence only)
 
     def impl_call_later(self, delay, fn, cid):
         return self.c.callLater(delay, fn, cid)
@@ -73,13 +83,26 @@ class Scenario(TimerScenario):
 
     def run_passes(self, amounts, use_pump):
         """One advance per amount.  With pump() the generator below is the only
-        place the scenario regains control between two advances."""
+        place the scenario regains control between two advances.
+
+        A scheduled call may fail (ScriptedFailure).  Clock has no error handler, so the
+        exception reaches us through advance()/pump(); that cuts the advance (and the
+        rest of the pump) short, and the statement is silent on the calls which that
+        advance had reached and not yet run: no verdict for it (TimerModel.abort_pass).
+        They are still pending - getDelayedCalls/active()/getTime() go on being compared
+        - and the next advance that completes must run them, like every later call.
+        Returns True if the advance was cut short."""
         sim, m = self.sim, self.m
         started = [0]
+        cut_short = False
 
         def close():
             self.chk(m.end_pass(), "advance")
             self.tie_stats()
+            if self.leftover:
+                if any(m.state_of(c) == "ran" for c in self.leftover):
+                    sim.probe("calls_left_by_failed_advance_ran_in_later_advance")
+                self.leftover = []
 
         def opening(a):
             if started[0]:
@@ -99,13 +122,24 @@ class Scenario(TimerScenario):
                     self.c.advance(opening(a))
         except (Violation, StepLimit):
             raise
+        except ScriptedFailure:
+            cut_short = True
         except Exception as e:
             if self.harness_exc is not None:   # raised by the scenario's own code inside a call
                 raise
             sim.fail("advance-raised", type(e).__name__, "%s: %s" % (type(e).__name__, e))
         self.reraise()
-        if started[0]:
+        if cut_short and m.in_pass:
+            sim.fault("advance_cut_short_by_failing_call")
+            sim.event("advance-cut-short")
+            m.abort_pass()
+            self.tie_stats()
+            self.leftover = [c for c in m.pending_ids() if m.time_of(c) <= m.now]
+            if self.leftover:
+                sim.probe("due_calls_left_pending_by_failed_advance")
+        elif started[0]:
             close()
+        return cut_short
 
     def tie_stats(self):
         """Evidence only: did this advance run two never-rescheduled calls with equal time?"""
@@ -139,11 +173,17 @@ class Scenario(TimerScenario):
             self.reraise()
             self.check_views("top")
             sim.state((min(len(self.m.pending_ids()), 8), self.inner_p > 0))
+        # drain: far beyond every scheduled time; calls no longer issue operations but may still fail, and an advance that
+        # a failing call cut short (which consumed that call) is followed by another one
         self.draining = True
-        pend = self.m.pending_ids()
-        far = (max(0.0, max(self.m.time_of(c) for c in pend) - self.m.now) if pend else 0.0) + 1.0
-        self.run_passes([far], use_pump=False)
-        self.check_views("drain")
+        while True:
+            sim.step(self.STEP_CAP * sim.depth)
+            pend = self.m.pending_ids()
+            far = (max(0.0, max(self.m.time_of(c) for c in pend) - self.m.now) if pend else 0.0) + 1.0
+            cut_short = self.run_passes([far], use_pump=False)
+            self.check_views("drain")
+            if not cut_short:
+                break
         self.final_accounting()
         c = self.counts
         sim.nontrivial = c["ran"] >= 3 and c["cancel"] >= 1 and c["resched"] >= 1 and self.ties >= 1
@@ -162,6 +202,9 @@ MUTANTS = [
     "task.py Clock.advance: <= -> <  -- caught: runs-in-first-advance",
     "task.py Clock._sortCalls: key a.time (ignores delayed_time)  -- caught: runs-in-first-advance / earliest-first",
     "task.py Clock.advance: clock crawls call by call instead of jumping to the target first  -- caught: clock-reads-model-time / runs-in-first-advance",
+    "task.py Clock.advance: re-entrancy flag set before the loop and cleared after it without try/finally (a failing call leaves it set; later advances run nothing)  -- caught (needs failing calls): runs-in-first-advance",
+    "task.py Clock.advance: a failing call is put back at the head of the list (called = 0) before its exception is re-raised  -- caught (needs failing calls): getDelayedCalls-exact",
+    "task.py Clock.advance: a failing call's exception is swallowed and ends the loop (advance returns normally with due calls left)  -- caught (needs failing calls): runs-in-first-advance",
 ]
 
 
